@@ -67,6 +67,7 @@ public:
   DecodingTree() {
     this->leaves = 0;
     this->tree = NULL;
+    this->partree = NULL;
   };
 
   /** Class constructor.
